@@ -221,6 +221,11 @@ def subst_case(args):
     pre = ['addi x0 x0 0'] * rnd.randrange(0, 3)
     post = ['HERE:', 'addi x0 x0 0']
     same_label = rnd.random() < 0.25
+    if pname == 'li' and idx % 2 == 0:
+        # li decides between one and two instructions from the VALUE: with a label of the same name at a small address and a
+        # constant that needs lui + addi, any pass that looks the name up in the wrong order shows
+        same_label = True
+        v = rnd.choice([0x12345, 0x12345678, 0xfffff800, 4096, -4097, 0x80000000, 2048])
     lit = str(v) if rnd.random() < 0.5 or v < 0 else hex(v)
     defs = ['%s = %s' % (name, lit)]
     if 0x20 <= v < 0x7f and rnd.random() < 0.6:
